@@ -117,3 +117,31 @@ Definition onode_world_ex (ex : list string) (d : option Z) : decls :=
   fun c => match c with O => Some (onode_decl_ex ex d) | _ => None end.
 Definition onode_decl := onode_decl_ex [].
 Definition onode_world := onode_world_ex [].
+
+(* ---------- a link through a union with scalar arms: `link: Union['Node', int, None] = None` ---------- *)
+(* the chain may end in a node without link, or in a scalar arm of the union *)
+Inductive uchain := UEnd (v : Z) | UInt (v : Z) (i : Z) | UNext (v : Z) (next : uchain).
+Fixpoint ulength (c : uchain) : nat := match c with UEnd _ | UInt _ _ => 1%nat | UNext _ n => S (ulength n) end.
+Fixpoint to_val_u (c : uchain) : pyval :=
+  match c with
+  | UEnd v => PDict [(PStr "v", PInt v)]
+  | UInt v i => PDict [(PStr "v", PInt v); (PStr "link", PInt i)]
+  | UNext v n => PDict [(PStr "v", PInt v); (PStr "link", to_val_u n)]
+  end.
+Fixpoint inst_u (c : uchain) : pyval :=
+  match c with
+  | UEnd v => PInst 0 [("v", PInt v); ("link", PNone)]
+  | UInt v i => PInst 0 [("v", PInt v); ("link", PInt i)]
+  | UNext v n => PInst 0 [("v", PInt v); ("link", inst_u n)]
+  end.
+Definition uni_union : ty := TLogic COr [TData 0; TPrim TInt; TPrim TNone].
+Definition uni_link : ty := TRule (Some uni_union) [] false [] None None None.
+Definition unode_decl_ex (ex : list string) (d : option Z) : cdecl := {|
+  c_fields := [("v", plain_field "v" (TPrim TInt) true None);
+               ("link", plain_field "link" uni_link false (Some PNone))];
+  c_alias_map := []; c_ci_names := []; c_options := opts_with_depth d; c_dfs := false;
+  c_exclude_vars := ex; c_dict_based := true |}.
+Definition unode_world_ex (ex : list string) (d : option Z) : decls :=
+  fun c => match c with O => Some (unode_decl_ex ex d) | _ => None end.
+Definition unode_decl := unode_decl_ex [].
+Definition unode_world := unode_world_ex [].
